@@ -333,7 +333,7 @@ def parse_regular(out):
     res['failed_checks'] = fc
     return res
 
-def spec_unwindset(target, h, bound=18, rec_bound=9):
+def spec_unwindset(target, h, bound=24, rec_bound=9):
     """The harness's #[kani::unwind] follows the input length (it also bounds the lexer's own recursion).  Loops of the
     specification evaluator depend on the *pattern* (number of patterns, alternatives, class ranges, literal bytes): they get
     their own, larger bound through CBMC's --unwindset, computed from the harness's goto binary."""
@@ -346,7 +346,9 @@ def spec_unwindset(target, h, bound=18, rec_bound=9):
     loops = sorted(set(m.group(1) for m in re.finditer(r'^Loop (\S+?):$', p.stdout, re.M) if '5k_lex4spec' in m.group(1)))
     if not loops: return None
     prefix = loops[0].split('4spec')[0] + '4spec'
-    items = ['%s:%d' % (l, bound) for l in loops] + ['%s4ends:%d' % (prefix, rec_bound), '%s5alive:%d' % (prefix, rec_bound)]
+    items = ['%s:%d' % (l, bound) for l in loops]
+    for fn in ('4ends', '5alive'):     # recursion bounds, only for functions present in this harness's binary
+        if any(l.startswith(prefix + fn + '.') for l in loops): items.append('%s%s:%d' % (prefix, fn, rec_bound))
     return ','.join(items)
 
 def _one(args):
@@ -362,6 +364,8 @@ def _one(args):
         p = subprocess.run(cmd, cwd=crate_dir, capture_output=True, text=True, env=_env(), timeout=timeout)
         out = p.stdout + '\n' + p.stderr
         r = parse_regular(out)
+        if r['status'] == 'fail' and not r['failed_checks']:
+            r['status'] = 'unknown'       # CBMC / driver error, not a property failure
         if r['status'] == 'unknown':
             r['error'] = '\n'.join(l for l in out.splitlines() if not FILTER.search(l))[-1500:]
     except subprocess.TimeoutExpired:
